@@ -66,6 +66,85 @@ Theorem C19_refuted : ~ C19_full.
 Proof. exact full_refuted. Qed.
 Print Assumptions C19_refuted.
 
+(* ---- "take the tokens, sleep until they are there" for ANY wait --------------------------------
+   C19_bound and C19_partial above quantify over all request sequences: [run] is [take] with
+   maxWait = None (the library's infinityDuration), so the wait a request is given is computed from the
+   debt alone and nothing in the model bounds it.  The following theorems say so explicitly.
+
+   EVERY request sequence (non-decreasing request times, positive sizes of ANY magnitude): the request
+   that completes the first K requested bytes is released at a time r >= 0 whose tick r/fillInterval
+   satisfies K <= capacity + quantum * tick: it is never released before the bucket has been refilled
+   for everything requested up to and including itself, however long that takes. *)
+Theorem C19_never_released_early : forall p reqs, wf p -> sorted_from 0 reqs ->
+  Forall (fun tc => 0 < snd tc) reqs ->
+  Forall (fun rK => snd rK <= capacity p + quantum p * (fst rK / fillInterval p))
+         (cumulate 0 (run p (binit p) reqs)).
+Proof. exact never_early. Qed.
+Print Assumptions C19_never_released_early.
+
+(* in rate terms, for MakeValve's buckets: that request is released no earlier than
+   (K - rate) / (1.01 * rate) seconds after the valve was made *)
+Theorem C19_never_released_early_rate : forall rate p reqs, wf p -> 0 < rate -> capacity p = rate ->
+  within_1pct rate p -> sorted_from 0 reqs -> Forall (fun tc => 0 < snd tc) reqs ->
+  Forall (fun rK => 0 <= fst rK /\ 100 * 1000000000 * (snd rK - rate) <= 101 * rate * fst rK)
+         (cumulate 0 (run p (binit p) reqs)).
+Proof. exact never_early_rate. Qed.
+Print Assumptions C19_never_released_early_rate.
+
+(* k requests of n bytes all issued at time 0 - k senders blocked on the user's bucket at once (streams,
+   connections, sessions: one bucket), or one sender's queue: the i-th of them (from 0), with
+   K = (i+1)*n bytes requested up to and including itself, is released at r with
+   (K - capacity) * fillInterval <= quantum * r, i.e. no earlier than (K - capacity) / fill rate *)
+Theorem C19_backlog_wait : forall p n k i r K, wf p -> 0 < n ->
+  nth_error (cumulate 0 (run p (binit p) (repeat (0, n) k))) i = Some (r, K) ->
+  K = (Z.of_nat i + 1) * n /\ 0 <= r /\ (K - capacity p) * fillInterval p <= quantum p * r.
+Proof. exact backlog_wait. Qed.
+Print Assumptions C19_backlog_wait.
+
+(* the wait the model imposes has no upper limit: whatever W, a long enough backlog contains a request
+   (it exists) that is released later than W *)
+Theorem C19_wait_unbounded : forall p n W, wf p -> 0 < n ->
+  exists k r K, nth_error (cumulate 0 (run p (binit p) (repeat (0, n) (S k)))) k = Some (r, K) /\ W < r.
+Proof. exact wait_unbounded. Qed.
+Print Assumptions C19_wait_unbounded.
+
+(* non-vacuity: at 1000 B/s two maximal frames wait 15.4 s and 31.8 s, one request of 3 601 000 bytes
+   waits exactly one hour, the sixth of six 8000-byte messages pending at once waits 47 s *)
+Example C19_never_released_early_inhabited :
+  cumulate 0 (run p1000 (binit p1000) [(0, 16401); (0, 16401)]) = [(15401000000, 16401); (31802000000, 32802)] /\
+  cumulate 0 (run p1000 (binit p1000) [(0, 3601000)]) = [(3600000000000, 3601000)] /\
+  nth_error (cumulate 0 (run p1000 (binit p1000) (repeat (0, 8000) 6))) 5 = Some (47000000000, 48000).
+Proof. exact never_early_inhabited. Qed.
+
+(* counted from the moment the valve is made, the LITERAL bound of the property holds for all message
+   sizes (no term for the largest message: F14 needs an interval that begins later): everything released
+   in [0, e] is covered by the initial content and the refill *)
+Theorem C19_bound_from_start : forall p reqs e, wf p -> 0 <= e -> sorted_from 0 reqs ->
+  Forall (fun tc => 0 < snd tc) reqs ->
+  released 0 e (run p (binit p) reqs) <= capacity p + quantum p * (e / fillInterval p).
+Proof. exact from_start. Qed.
+Print Assumptions C19_bound_from_start.
+
+Theorem C19_partial_from_start : forall rate p reqs e, wf p -> 0 < rate -> capacity p = rate ->
+  within_1pct rate p -> 0 <= e -> sorted_from 0 reqs -> Forall (fun tc => 0 < snd tc) reqs ->
+  100 * 1000000000 * released 0 e (run p (binit p) reqs) <= 101 * rate * e + 100 * 1000000000 * rate.
+Proof. exact from_start_rate. Qed.
+Print Assumptions C19_partial_from_start.
+
+(* The valve must call Wait.  With the limited variant the library also offers - WaitMaxDuration(n, 30 s),
+   result ignored (seeded change C19_r2m2; Model: run_capped) - a request whose wait would exceed the
+   limit takes no token and goes out at once: two 16030-byte messages at 500 B/s are released after
+   31.06 s and 63.12 s by Wait, both at time 0 by the capped wait: 32060 bytes in an interval of length
+   0, against 16031 (C19_bound with the largest message) and 500 (C19_bound_from_start). *)
+Theorem C19_refuted_capped_wait :
+  run p500 (binit p500) [(0, 16030); (0, 16030)] = [(31060000000, 16030); (63120000000, 16030)] /\
+  run_capped p500 (binit p500) 30000000000 [(0, 16030); (0, 16030)] = [(0, 16030); (0, 16030)] /\
+  released 0 0 (run_capped p500 (binit p500) 30000000000 [(0, 16030); (0, 16030)]) = 32060 /\
+  quantum p500 * (0 / fillInterval p500 - 0 / fillInterval p500 + 1) + Z.max (capacity p500) 16030 = 16031 /\
+  capacity p500 + quantum p500 * (0 / fillInterval p500) = 500.
+Proof. exact capped_wait_exceeds. Qed.
+Print Assumptions C19_refuted_capped_wait.
+
 (* all sessions of one active user draw from ONE bucket: GetSession hands the user's valve to every
    session it creates (whatever the sequence of GetSession calls) ... *)
 Theorem C19_shared_valve : forall sids u,
